@@ -348,14 +348,15 @@ class C14(Check):
     anchors = []
     coverage_cases = 2500
     trusted_base = ["models Model/Checksum.lean, Model/PacketLayout.lean, Model/PacketHdr.lean (10 classes), Model/PacketExt.lean (llc, mpls, lldp, eapol, eap, ipv6, icmpv6 + echo + the four NDP messages with their options + packet-too-big / time-exceeded / unreachable, gre, vxlan, igmp, rip, dhcp with its option TLVs) hand-written from pox/lib/packet; tied by this correspondence run",
-                    "harness/c14.py detect_variant: whether the tree has the proposed repairs D50 (RIP metric struct 'I') / D49 (EAP request/response keep their body) is read off the source (ast shapes, unknown shape = error); the driver evaluates the model at that variant (XCfg) and the correspondence validates the choice",
+                    "harness/c14.py detect_variant: whether the tree has the proposed repairs D50 (RIP metric struct 'I') / D49 (EAP request/response keep their body) is found by probing the classes (one RIP entry, one EAP request; the source shapes are a recorded cross-check only); the driver evaluates the model at that variant (XCfg) and the correspondence validates the choice",
                     "the driver answers every stack from the extended model and, for stacks of the ten original classes, refuses to answer unless the original model (the one the chain theorem is about) gives the identical result",
                     "RFC 1071 transcription `Pox.Checksum.rfc1071` (Lean) and `rfc1071` (harness/c14.py), cross-checked against each other on every cksum case",
                     "the harness's own wire-format walker (wire_check) for the positions of length/checksum fields"]
     assumptions = ["little-endian host (array('H') / struct 'H' in packet_utils.checksum are host order; model fixes LE)",
                    "struct packs/unpacks as documented; socket.ntohs swaps bytes",
                    "field values inside their wire ranges; ipv4.hl consistent with len(raw_options); llc.length consistent with control/SNAP (the library does not derive them)",
-                   "checksum input <= 131072 bytes (two folds suffice below 2^32); every IP datagram is < 65536 bytes"]
+                   "checksum input <= 131072 bytes (two folds suffice below 2^32); every IP datagram is < 65536 bytes",
+                   "a gre object with a computed checksum that is packed more than once has compute_csum=True (gre.hdr turns csum=True into the number it computed and, as its docstring says, a number is emitted as it stands)"]
     design_ref = "DESIGN.md §5 C14, Appendix D.1, D.6"
     technique = ("Lean 4 proof about hand-written executable models of packet_utils.checksum and the Ethernet/VLAN/ARP/IPv4/UDP/TCP/ICMP "
                  "headers + differential correspondence of the compiled model against the real classes + independent RFC 1071 oracle over the emitted bytes")
@@ -383,18 +384,42 @@ class C14(Check):
         # name-based anchors: resolved by common.AnchorCoverage with ast on every run (robust to line shifts)
         self.anchors = [("pox/lib/packet/%s.py" % mod, f) for mod, funcs in self.ANCHOR_FUNCS.items() for f in funcs]
 
-    # which of the proposed repairs that change *modelled* behaviour the tree under test has (fixes/C14_D50_rip_metric_unsigned.diff,
-    # fixes/C14_D49_eap_keep_type_data.diff): read off the source with ast, statement shapes pattern-checked; an unknown shape is an
-    # error, never a guess.  The driver evaluates the model at that variant (Model/PacketExt.lean XCfg) and the correspondence run
-    # validates the choice.  D45 (DHCP options) and D47 (NDP / ICMPv6 error bodies) are committed and the model describes the repaired code;
-    # D46 / D48 only touch code the model declines, so they need no variant.
+    # Which of the proposed repairs that change *modelled* behaviour the tree under test has (fixes/C14_D50_rip_metric_unsigned.diff,
+    # fixes/C14_D49_eap_keep_type_data.diff) is found by PROBING the classes (HARDENING 8): what they do with one RIP entry whose metric
+    # has the top bit set and with one EAP request.  The driver evaluates the model at that variant (Model/PacketExt.lean XCfg) and the
+    # correspondence run validates the choice.  The statement shapes in the source are read as a cross-check only: a disagreement or an
+    # unknown shape is recorded in the evidence, never an abort.  D45 (DHCP options) and D47 (NDP / ICMPv6 error bodies) are committed
+    # and the model describes the repaired code; D46 / D48 only touch code the model declines, so they need no variant.
     def detect_variant(self):
+        R = self.m["rip"]; EA = self.m["eap"]
+        rip_unsigned = False
+        try:
+            b = R.rip(command=2, version=2, entries=[R.RIPEntry(address_family=2, route_tag=0, ip=self.IPAddr(0), netmask=self.IPAddr(0), next_hop=self.IPAddr(0), metric=0x80000001)]).pack()
+            q = R.rip(raw=b)
+            rip_unsigned = b[-4:] == b"\x80\x00\x00\x01" and len(q.entries) == 1 and q.entries[0].metric == 0x80000001
+        except Exception:
+            rip_unsigned = False
+        eap_body = False
+        try:
+            raw = bytes([1, 7, 0, 7, 1]) + b"id"
+            q = EA.eap(raw=raw)
+            eap_body = (q.next == raw[4:])
+        except Exception:
+            eap_body = False
+        v = {"rip_unsigned": bool(rip_unsigned), "eap_body": bool(eap_body)}
+        try:
+            src = self._variant_from_source()
+            self.variant_crosscheck = "source shapes agree" if src == v else "source shapes say %r, probing says %r" % (src, v)
+        except Exception as e:
+            self.variant_crosscheck = "source shape not recognised (%s)" % (str(e)[:120],)
+        return v
+
+    def _variant_from_source(self):
         import ast
         def funcs(mod, cls):
             tree = ast.parse(open(os.path.join(common.REPO, "pox/lib/packet/%s.py" % mod)).read())
             c = [n for n in tree.body if isinstance(n, ast.ClassDef) and n.name == cls][0]
             return {f.name: f for f in c.body if isinstance(f, ast.FunctionDef)}
-        # --- RIP metric format
         f = funcs("rip", "RIPEntry")
         fmts = []
         for fn, call in (("hdr", "pack"), ("parse", "unpack")):
@@ -403,8 +428,7 @@ class C14(Check):
             fmts.append(cs[0].args[0].value)
         if fmts == ["!HHiiii", "!HHiiii"]: rip_unsigned = False
         elif fmts == ["!HHiiiI", "!HHiiiI"]: rip_unsigned = True
-        else: raise RuntimeError("RIPEntry hdr/parse formats %r are a shape the C14 model does not know" % (fmts,))
-        # --- EAP request/response bodies
+        else: raise RuntimeError("RIPEntry hdr/parse formats %r" % (fmts,))
         f = funcs("eap", "eap")
         shapes = {"self.type, = struct.unpack('!B', raw[self.MIN_LEN:self.MIN_LEN + 1])": False,
                   "self.type, = struct.unpack('!B', raw[self.MIN_LEN:self.MIN_LEN + 1])\nself.next = raw[self.MIN_LEN:]": True}
@@ -413,9 +437,9 @@ class C14(Check):
             if isinstance(n, ast.If) and ast.unparse(n.test) in ("self.code == self.REQUEST_CODE", "self.code == self.RESPONSE_CODE"):
                 text = "\n".join(ast.unparse(x) for x in n.body)
                 if "self.type" in text:
-                    if text not in shapes: raise RuntimeError("eap.parse request/response branch has a shape the C14 model does not know:\n" + text)
+                    if text not in shapes: raise RuntimeError("eap.parse request/response branch:\n" + text)
                     found.append(shapes[text])
-        if len(found) != 2 or found[0] != found[1]: raise RuntimeError("eap.parse: request/response branches not recognised (%r)" % (found,))
+        if len(found) != 2 or found[0] != found[1]: raise RuntimeError("eap.parse: request/response branches (%r)" % (found,))
         return {"rip_unsigned": rip_unsigned, "eap_body": found[0]}
 
     # ------------------------------------------------------------------ building real objects from a layer list
@@ -532,16 +556,20 @@ class C14(Check):
             else:
                 g = M.NDOptionGeneric(); g.TYPE = o["t"]; g.raw = bytes.fromhex(o["raw"]); out.append(g)
         return out
+    def _ndkw(self, L, **kw):
+        # the option list is only handed over when there is one, so that a container shared between instances would show (HARDENING 1)
+        if L.get("opts"): kw["options"] = self._ndopts(L)
+        return kw
     def mk_nd_ns(self, L, n):
-        return self.m["icmpv6"].NDNeighborSolicitation(target=self.IPAddr6(bytes.fromhex(L["target"]), raw=True), options=self._ndopts(L))
+        return self.m["icmpv6"].NDNeighborSolicitation(**self._ndkw(L, target=self.IPAddr6(bytes.fromhex(L["target"]), raw=True)))
     def mk_nd_na(self, L, n):
-        return self.m["icmpv6"].NDNeighborAdvertisement(target=self.IPAddr6(bytes.fromhex(L["target"]), raw=True), options=self._ndopts(L),
-                                                        is_router=L["router"], is_solicited=L["solicited"], is_override=L["override"])
+        return self.m["icmpv6"].NDNeighborAdvertisement(**self._ndkw(L, target=self.IPAddr6(bytes.fromhex(L["target"]), raw=True),
+                                                                       is_router=L["router"], is_solicited=L["solicited"], is_override=L["override"]))
     def mk_nd_rs(self, L, n):
-        o = self.m["icmpv6"].NDRouterSolicitation(); o.options = self._ndopts(L); return o
+        return self.m["icmpv6"].NDRouterSolicitation(**self._ndkw(L))
     def mk_nd_ra(self, L, n):
-        return self.m["icmpv6"].NDRouterAdvertisement(hop_limit=L["hop_limit"], is_managed=L["managed"], is_other=L["other"], lifetime=L["lifetime"],
-                                                      reachable=L["reachable"], retrans_timer=L["retrans"], options=self._ndopts(L))
+        return self.m["icmpv6"].NDRouterAdvertisement(**self._ndkw(L, hop_limit=L["hop_limit"], is_managed=L["managed"], is_other=L["other"], lifetime=L["lifetime"],
+                                                                     reachable=L["reachable"], retrans_timer=L["retrans"]))
     def mk_toobig6(self, L, n):
         return self.m["icmpv6"].PacketTooBig(**self._pl(dict(mtu=L["mtu"]), n))
     def mk_timeex6(self, L, n):
@@ -555,6 +583,9 @@ class C14(Check):
         return M.igmp(ver_and_type=L["vt"], max_response_time=L["mrt"], address=self.IPAddr(L["addr"]), extra=bytes.fromhex(L["extra"]))
     def mk_gre(self, L, n):
         kw = dict(type=L["type"], key=L["key"], seq=L["seq"], csum=(True if L["csum"] else None), strict_source_route=L["ssr"])
+        # gre.hdr() replaces csum=True by the number it computed ("include it if it is set to a number", class docstring), so an object that
+        # is packed again after a change keeps the old checksum unless compute_csum is set: the histories use the documented switch
+        if L["csum"] and L.get("_always"): kw["compute_csum"] = True
         return self.m["gre"].gre(**self._pl(kw, n))
     def mk_vxlan(self, L, n):
         return self.m["vxlan"].vxlan(**self._pl(dict(vni=L["vni"]), n))
@@ -571,7 +602,8 @@ class C14(Check):
                    chaddr=(self.EthAddr(ch[:6]) if L["hlen"] == 6 else ch), sname=bytes.fromhex(L["sname"]), file=bytes.fromhex(L["file"]))
         for op in L["options"]:
             c = op["c"]
-            if c == 53: o.options[c] = M.DHCPMsgTypeOption(op["v"])
+            if "raw" in op: o.options[c] = M.DHCPRawOption(bytes.fromhex(op["raw"]))          # any code, value given as bytes
+            elif c == 53: o.options[c] = M.DHCPMsgTypeOption(op["v"])
             elif c in (1, 28, 50, 54):
                 o.options[c] = {1: M.DHCPSubnetMaskOption, 28: M.DHCPBroadcastAddressOption, 50: M.DHCPRequestIPOption, 54: M.DHCPServerIdentifierOption}[c](self.IPAddr(op["v"]))
             elif c in (3, 4, 6): o.options[c] = {3: M.DHCPRoutersOption, 4: M.DHCPTimeServersOption, 6: M.DHCPDNSServersOption}[c]([self.IPAddr(a) for a in op["v"]])
@@ -745,7 +777,7 @@ class C14(Check):
             try:
                 b = bytearray(self.build(case["layers"]).pack())
             except Exception as e:
-                return {"exc": type(e).__name__, "stage": "pack", "where": self._where(e)}
+                return {"exc": type(e).__name__, "stage": "pack", "where": self._lib_exc(e)}
             for m in case["mut"]:
                 if m["m"] == "trunc": b = b[:m["n"]]
                 elif m["i"] < len(b): b[m["i"]] = m["v"]
@@ -755,11 +787,11 @@ class C14(Check):
                 q = top(raw=b)
                 obs["parsed"] = self.chain(q, False)
             except Exception as e:
-                obs.update(exc2=type(e).__name__, stage="parse", where=self._where(e)); return obs
+                obs.update(exc2=type(e).__name__, stage="parse", where=self._lib_exc(e)); return obs
             try:
                 obs["repack"] = q.pack().hex()
             except Exception as e:
-                obs.update(repack_exc=type(e).__name__, stage="repack", where=self._where(e))
+                obs.update(repack_exc=type(e).__name__, stage="repack", where=self._lib_exc(e))
             return obs
         if case["kind"] == "seq":
             return self.run_seq(case, top)
@@ -801,14 +833,16 @@ class C14(Check):
         return obs
 
     # ---- call histories on the same objects (HARDENING 1, 2, 4): what every call returns must be what a fresh process returns
-    SETTABLE = {"ethernet": {"dst": "mac", "src": "mac"}, "vlan": {"pcp": "int", "cfi": "int", "id": "int"},
-                "ipv4": {"tos": "int", "id": "int", "flags": "int", "ttl": "int", "srcip": "ip4", "dstip": "ip4"},
-                "udp": {"srcport": "int", "dstport": "int"},
-                "tcp": {"srcport": "int", "dstport": "int", "seq": "int", "ack": "int", "res": "int", "flags": "int", "win": "int", "urg": "int", "options": "tcpopts"},
-                "icmp": {"code": "int"}, "echo": {"id": "int", "seq": "int"}, "unreach": {"next_mtu": "int", "unused": "int"}, "time_exceeded": {"unused": "int"},
-                "ipv6": {"tc": "int", "flow": "int", "hop_limit": "int", "srcip": "ip6", "dstip": "ip6"}, "icmpv6": {"code": "int"}, "echo6": {"id": "int", "seq": "int"},
-                "mpls": {"label": "int", "tc": "int", "ttl": "int"}, "vxlan": {"vni": "int"}, "toobig6": {"mtu": "int"}, "unreach6": {"unused": "int"},
-                "nd_ra": {"hop_limit": "int", "lifetime": "int", "reachable": "int", "retrans": "int:retrans_timer"}, "bytes": {"data": "payload"}}
+    I = lambda bits, attr=None: ("int", bits, attr)
+    SETTABLE = {"ethernet": {"dst": ("mac",), "src": ("mac",)}, "vlan": {"pcp": I(3), "cfi": I(1), "id": I(12)},
+                "ipv4": {"tos": I(8), "id": I(16), "flags": I(3), "ttl": I(8), "srcip": ("ip4",), "dstip": ("ip4",)},
+                "udp": {"srcport": I(16), "dstport": I(16)},
+                "tcp": {"srcport": I(16), "dstport": I(16), "seq": I(32), "ack": I(32), "res": I(4), "flags": I(8), "win": I(16), "urg": I(16), "options": ("tcpopts",)},
+                "icmp": {"code": I(8)}, "echo": {"id": I(16), "seq": I(16)}, "unreach": {"next_mtu": I(16), "unused": I(16)}, "time_exceeded": {"unused": I(32)},
+                "ipv6": {"tc": I(8), "flow": I(20), "hop_limit": I(8), "srcip": ("ip6",), "dstip": ("ip6",)}, "icmpv6": {"code": I(8)}, "echo6": {"id": I(16), "seq": I(16)},
+                "mpls": {"label": I(20), "tc": I(3), "ttl": I(8)}, "vxlan": {"vni": I(24)}, "toobig6": {"mtu": I(32)}, "unreach6": {"unused": I(32)},
+                "nd_ra": {"hop_limit": I(8), "lifetime": I(16), "reachable": I(32), "retrans": I(32, "retrans_timer")}, "bytes": {"data": ("payload",)}}
+    del I
 
     @staticmethod
     def apply_delta(layers, delta):
@@ -820,19 +854,20 @@ class C14(Check):
         hs = []; o = obj
         while isinstance(o, self.packet_base): hs.append(o); o = o.next
         L = layers[d["i"]]; how = self.SETTABLE[L["k"]][d["f"]]; v = d["v"]
-        if how == "payload": hs[d["i"] - 1].payload = bytes.fromhex(v); return
+        if how[0] == "payload": hs[d["i"] - 1].payload = bytes.fromhex(v); return
         h = hs[d["i"]]
         attr = d["f"]
-        if ":" in how: how, attr = how.split(":")
-        if how == "mac": v = self.EthAddr(bytes.fromhex(v))
-        elif how == "ip4": v = self.IPAddr(v)
-        elif how == "ip6": v = self.IPAddr6(bytes.fromhex(v), raw=True)
-        elif how == "tcpopts": v = [self._tcpopt(x) for x in v]
+        if how[0] == "int" and how[2]: attr = how[2]
+        if how[0] == "mac": v = self.EthAddr(bytes.fromhex(v))
+        elif how[0] == "ip4": v = self.IPAddr(v)
+        elif how[0] == "ip6": v = self.IPAddr6(bytes.fromhex(v), raw=True)
+        elif how[0] == "tcpopts": v = [self._tcpopt(x) for x in v]
         setattr(h, attr, v)
 
     def run_seq(self, case, top):
         obs = {}
-        LA = case["layers"]; LB = case.get("other"); delta = case.get("delta", [])
+        always = lambda Ls: None if Ls is None else [dict(L, _always=True) if L["k"] == "gre" else L for L in Ls]
+        LA = always(case["layers"]); LB = always(case.get("other")); delta = case.get("delta", [])
         try:
             if LB is not None and case.get("bfirst"): B = self.build(LB); A = self.build(LA)
             else:
@@ -894,6 +929,7 @@ class C14(Check):
     @staticmethod
     def _dhcp_opt_bytes(o):
         """wire value of a DHCP option of the case (what the option classes' pack() must produce)"""
+        if "raw" in o: return bytes.fromhex(o["raw"])
         c, v = o["c"], o["v"]
         if c == 53: return bytes([v])
         if c in (1, 28, 50, 54, 51, 58, 59): return struct.pack("!I", v)
@@ -1086,12 +1122,16 @@ class C14(Check):
             if m:
                 which = m.group(1)
                 layers, o = (case["other"], obs["B"]) if which == "second object" else (self.apply_delta(case["layers"], case.get("delta", [])), obs["A2"])
+                fresh = self.run_stack(layers, {"ethernet": self.m["ethernet"].ethernet, "ipv4": self.m["ipv4"].ipv4}[case["top"]])
+                ff = self.stack_oracle(layers, fresh)
+                if ff is not None and self.stack_key(layers, fresh, ff) == self.stack_key(layers, o, m.group(2)):
+                    return self.stack_key(layers, o, m.group(2))          # not a matter of history: the same stack fails when built afresh
                 tag = {"second object": "other", "pack after a field change": "set:" + ",".join(sorted({"%s.%s" % (case["layers"][d["i"]]["k"], d["f"]) for d in case["delta"]})),
                        "second pack": "pack2"}[which]
                 return "seq:%s:%s" % (tag, self.stack_key(layers, o, m.group(2)))
             if failure.startswith("repeated call differs") or failure.startswith("repeating a call") or failure.startswith("setting a field"):
                 return "seq:" + re.sub(r" at .*", "", failure)[:60] + ":" + "/".join(self._sig(L) for L in case["layers"] if L["k"] not in TERMINAL)
-            return "seq:first:" + self.stack_key(case["layers"], obs if "A1" not in obs else dict(obs["A1"], **{k: obs[k] for k in ("exc", "stage", "where") if k in obs}), failure)
+            return self.stack_key(case["layers"], obs if "A1" not in obs else dict(obs["A1"], **{k: obs[k] for k in ("exc", "stage", "where") if k in obs}), failure)
         return self.stack_key(case["layers"], obs, failure)
 
     def stack_key(self, layers, obs, failure):
@@ -1176,6 +1216,7 @@ class C14(Check):
     def plen(rng, lo=0, hi=1500):
         c = rng.randrange(10)
         if c < 3: n = rng.choice([0, 1, 2, 3, 4, 5, 7, 8, 9, 15, 16, 17])
+        elif c < 4: n = rng.choice([8, 16, 24, 32, 64, 128, 256, 512, 1024, 1280, 1448, 2048, 4096]) + rng.choice([0, 0, 0, -1, 1])      # block-size multiples (HARDENING 3)
         elif c < 5: n = rng.randint(0, 64)
         elif c < 6: n = rng.choice([1399, 1400, 1471, 1472, 1473, 1479, 1480, 1499, 1500])
         else: n = rng.randint(0, hi)
@@ -1199,7 +1240,7 @@ class C14(Check):
         return {"k": "vlan", "pcp": self.val(rng, 3), "cfi": self.val(rng, 1), "id": self.val(rng, 12), "eth_type": e["type"]}
 
     def g_ipv4(self, rng, inner_kind, frag_ok=False):
-        nopt = rng.choice([0, 0, 0, 1, 2, 10])
+        nopt = rng.choice([0, 0, 0, 1, 2, 10, rng.randint(0, 10)])
         proto = {"udp": 17, "tcp": 6, "icmp": 1, "igmp": 2, "gre": 47}.get(inner_kind)
         if proto is None:
             while True:
@@ -1230,6 +1271,7 @@ class C14(Check):
             else:
                 k = rng.choice([0, 1, 2, 5, 14]); o, n = {"t": t, "v": self.rbytes(rng, k).hex()}, 2 + k
             if n <= room: out.append(o); room -= n
+        if rng.randrange(6) == 0: out += [{"t": 1}] * room           # the option area filled to the last byte (data offset 15)
         return out
 
     def g_tcp(self, rng):
@@ -1301,7 +1343,7 @@ class C14(Check):
                     L["eth_type"] = 0x0800
                     return self._stack([E("llc", 100), L, ip(None), self.bytes_layer(rng, hi=200)])
                 L["eth_type"] = E(None)["type"]
-            return self._stack([E("llc", rng.randint(3, 1500)), L, self.bytes_layer(rng, hi=300)])
+            return self._stack([E("llc", rng.choice([3, 1500, 1535, rng.randint(3, 1500)])), L, self.bytes_layer(rng, hi=300)])
         if c == "mpls":
             n = rng.choice([1, 1, 2, 3])
             ls = [{"k": "mpls", "label": self.val(rng, 20), "tc": self.val(rng, 3), "s": 1 if i == n - 1 else 0, "ttl": self.val(rng, 8)} for i in range(n)]
@@ -1399,7 +1441,7 @@ class C14(Check):
                 elif oc in (3, 6): opts.append({"c": oc, "v": [self.val(rng, 32) for _ in range(rng.randint(1, 3))]})
                 elif oc == 51: opts.append({"c": 51, "v": self.val(rng, 32)})
                 elif oc == 55: opts.append({"c": 55, "v": [rng.randint(1, 254) for _ in range(rng.randint(1, 5))]})
-                else: opts.append({"c": oc, "v": self.rbytes(rng, rng.choice([1, 7, 300])).hex()})
+                else: opts.append({"c": oc, "v": self.rbytes(rng, rng.choice([1, 7, 300, 254, 255, 256, 510, 511])).hex()})
             fill = lambda n: (b"" if rng.random() < 0.6 else self.rbytes(rng, n)).hex()
             d = {"k": "dhcp", "op": rng.choice([1, 2]), "htype": 1, "hlen": hlen, "hops": self.val(rng, 8), "xid": self.val(rng, 32), "secs": self.val(rng, 16), "flags": rng.choice([0, 0x8000]),
                  "ciaddr": self.val(rng, 32), "yiaddr": self.val(rng, 32), "siaddr": self.val(rng, 32), "giaddr": self.val(rng, 32), "chaddr": self.rbytes(rng, 16).hex() if hlen != 6 else (self.rbytes(rng, 6) + bytes(10)).hex(),
@@ -1454,6 +1496,259 @@ class C14(Check):
                 muts.append({"m": "set", "i": rng.choice([rng.randint(0, hdr + 64), hdr + rng.randint(0, 9), hdr + rng.choice([0, 2, 3, 6, 9, 20, 26, 32, 33, 40, 41, 42, 44])]),
                              "v": rng.choice([0, 1, 2, 3, 4, 5, 6, 8, 10, 30, 0x45, 0x4f, 0x40, 0x50, 0x60, 0xf0, 0xff, rng.randint(0, 255)])})
         return {"kind": "mutparse", "top": "ethernet", "layers": base["layers"], "mut": muts}
+
+    # ---- call histories (HARDENING 1, 2, 4)
+    def g_delta(self, rng, layers, n=None):
+        """field changes applied to the built chain after its first pack()"""
+        cands = []
+        special = any(L["k"] == "udp" and (L["srcport"] in UDP_SPECIAL or L["dstport"] in UDP_SPECIAL) for L in layers)
+        for i, L in enumerate(layers):
+            for f, how in self.SETTABLE.get(L["k"], {}).items():
+                if L["k"] == "udp" and special: continue
+                if how[0] == "payload" and (i == 0 or layers[i - 1]["k"] in ("eap",)): continue
+                cands.append((i, f, how))
+        out = []
+        for i, f, how in rng.sample(cands, min(len(cands), rng.choice([0, 1, 1, 2, 3]) if n is None else n)):
+            L = layers[i]
+            if how[0] == "int":
+                v = self.g_port(rng) if L["k"] == "udp" else self.val(rng, how[1])
+            elif how[0] == "mac": v = self.rbytes(rng, 6).hex()
+            elif how[0] == "ip4": v = self.val(rng, 32)
+            elif how[0] == "ip6": v = self.rbytes(rng, 16).hex()
+            elif how[0] == "tcpopts": v = self.g_tcpopts(rng)
+            else:
+                d = bytes.fromhex(L["data"]); c = rng.randrange(6)
+                if c == 0 and d: d = d[:-1] + bytes([d[-1] ^ rng.choice([1, 0x80, 0xff])])      # same length, last byte changed
+                elif c == 1: d = d + self.rbytes(rng, 1)
+                elif c == 2: d = d[:-1]
+                elif c == 3: d = b""
+                elif c == 4: d = self.rbytes(rng, (len(d) // 8 + 1) * 8)
+                else: d = self.rbytes(rng, len(d))
+                # icmpv6 unreach parses a quote of >= 44 bytes as IPv6 and keeps a shorter one opaque: stay on the side the case is on
+                if layers[i - 1]["k"] == "unreach6" and len(d) >= 44: d = d[:43]
+                if i >= 2 and layers[i - 1]["k"] == "ipv6" and layers[i - 2]["k"] == "unreach6" and len(d) < 4: d = d + b"quot"
+                # the ICMP error classes do the same at 24 quoted bytes
+                if layers[i - 1]["k"] in ("unreach", "time_exceeded") and len(d) >= 24: d = d[:23]
+                if i >= 2 and layers[i - 1]["k"] == "ipv4" and layers[i - 2]["k"] in ("unreach", "time_exceeded") and len(d) < 4: d = d + b"quot"
+                v = d.hex()
+            out.append({"i": i, "f": f, "v": v})
+        return out
+
+    def twin(self, rng, layers):
+        """the same classes with every list-valued part empty and left to the constructor's default: what the first object holds must not show up here"""
+        out = []
+        for L in layers:
+            L = dict(L); k = L["k"]
+            if k == "tcp": L["options"] = []; L["_defopts"] = True; L["seq"] = self.val(rng, 32)
+            elif k == "ipv4": L["raw_options"] = ""; L["hl"] = 5; L["id"] = self.val(rng, 16)
+            elif k == "lldp": L["tlvs"] = [t for t in L["tlvs"] if t["t"] in (0, 1, 2, 3)]
+            elif k == "ipv6": L["ext"] = []; L["flow"] = self.val(rng, 20)
+            elif k == "dhcp": L["options"] = []; L["xid"] = self.val(rng, 32)
+            elif k in ("nd_ns", "nd_na", "nd_rs", "nd_ra"): L["opts"] = []
+            elif k == "igmp" and L["vt"] == 0x22: L["groups"] = []
+            elif k == "rip": L["entries"] = L["entries"][:1]
+            elif k == "dns": L["questions"] = []; L["answers"] = []; L["authorities"] = []; L["additional"] = []
+            out.append(L)
+        return self.fixup(out)
+
+    def g_seq(self, rng):
+        base = self.g_modelled(rng) if rng.random() < 0.55 else self.g_other(rng)
+        LA = base["layers"]
+        case = {"kind": "seq", "top": "ethernet", "layers": LA, "delta": self.g_delta(rng, LA)}
+        r = rng.random()
+        if r < 0.35:
+            case["other"] = self.twin(rng, LA); case["bfirst"] = rng.random() < 0.5
+        elif r < 0.55:
+            case["other"] = (self.g_modelled(rng) if rng.random() < 0.5 else self.g_other(rng))["layers"]; case["bfirst"] = rng.random() < 0.5
+        if rng.random() < 0.15:
+            case["layers"] = [dict(L, _noid=True) if L["k"] == "ipv4" else L for L in LA]
+        return case
+
+    # ---- fixed frames the corpus families below are built from
+    FE = {"k": "ethernet", "dst": "66778899aabb", "src": "001122334455", "type": 0x0800}
+    FU = {"k": "udp", "srcport": 1000, "dstport": 2000, "len": 8, "csum": 0}
+    FI6 = {"k": "ipv6", "tc": 0xb8, "flow": 0x12345, "hop_limit": 64, "nh": 58, "srcip": "fe80" + "00" * 13 + "01", "dstip": "ff02" + "00" * 13 + "02", "ext": []}
+    @staticmethod
+    def FI(p, **kw):
+        return dict({"k": "ipv4", "v": 4, "hl": 5, "tos": 0, "iplen": 20, "id": 0x1234, "flags": 2, "frag": 0, "ttl": 64, "protocol": p, "csum": 0,
+                     "srcip": 0x0a010203, "dstip": 0xc0a80001, "raw_options": ""}, **kw)
+    @staticmethod
+    def FT(opts=()):
+        return {"k": "tcp", "srcport": 1000, "dstport": 80, "seq": 0x01020304, "ack": 0xfffefdfc, "off": 0, "res": 0, "flags": 0x18, "win": 8192, "csum": 0, "urg": 0, "options": list(opts)}
+
+    def l4_frames(self, pl):
+        """the six checksummed transports over both IP versions, ending in the payload layer `pl`"""
+        E, E6, I, I6, U, T = self.FE, dict(self.FE, type=0x86dd), self.FI, self.FI6, self.FU, self.FT
+        return [[E, I(17), U, pl], [E, I(6), T(), pl], [E, I(1), {"k": "icmp", "type": 8, "code": 0, "csum": 0}, {"k": "echo", "id": 7, "seq": 9}, pl],
+                [E6, dict(I6, nh=17), U, pl], [E6, dict(I6, nh=6), T(), pl], [E6, I6, {"k": "icmpv6", "type": 128, "code": 0}, {"k": "echo6", "id": 7, "seq": 9}, pl]]
+
+    def g_big(self, rng):
+        """datagrams at and around the 15/16-bit length boundaries (HARDENING 3)"""
+        which = rng.randrange(6)
+        over = [28, 40, 28, 48, 60, 48][which]            # header bytes between the start of the IP header and the payload
+        total = rng.choice([32767, 32768, 32769, 65534, 65535, rng.randint(20000, 65535)])
+        if which >= 3: total += 40                           # the IPv6 payload-length field does not count the fixed header
+        n = total - over
+        return self._stack(self.l4_frames({"k": "bytes", "data": self.rbytes(rng, n).hex()})[which])
+
+    def corpus_hardening(self):
+        """corpus families added after HARDENING.md (item numbers in the comments)"""
+        cases = []
+        E, E6, I, I6, U, T = self.FE, dict(self.FE, type=0x86dd), self.FI, self.FI6, self.FU, self.FT
+        B = lambda b: {"k": "bytes", "data": bytes(b).hex()}
+        S = self._stack
+        MP = lambda layers: {"kind": "mutparse", "top": "ethernet", "layers": self.fixup(layers), "mut": []}
+        # --- 3: odd lengths x value of the last byte (sign bit, all ones, zero), every transport, both IP versions; every length 0..33 over IPv6
+        for fr_i in range(6):
+            for n in (1, 3, 5, 33):
+                for last in (0x00, 0x80, 0xff):
+                    cases.append(S(self.l4_frames(B([0x41] * (n - 1) + [last]))[fr_i]))
+            if fr_i >= 3:
+                for n in range(0, 34): cases.append(S(self.l4_frames(B(range(n)))[fr_i]))
+            # --- 3: payload lengths that are exact multiples of the word / block sizes, and one off
+            for n in (8, 16, 24, 32, 64, 128, 256, 512, 1024, 1448, 1456, 1464, 2048, 4096, 8192):
+                for d in (0, -1):
+                    cases.append(S(self.l4_frames(B((i * 7 + 3) & 255 for i in range(n + d)))[fr_i]))
+            # --- 3: the largest datagrams the length fields can express, and the 15-bit boundary
+            over = [28, 40, 28, 48, 60, 48][fr_i]
+            for total in (32767, 32768, 65535):
+                n = total + (40 if fr_i >= 3 else 0) - over
+                cases.append(S(self.l4_frames(B((i * 13 + 5) & 255 for i in range(n)))[fr_i]))
+        cases.append(S([E, I(253), B(b"\xa5" * 65515)]))
+        cases.append(S([E, I(253, hl=15, raw_options="01" * 40), B(b"\xa5" * 65475)]))
+        cases.append(S([E, I(6), T([{"t": 1}] * 40), B(b"\x5a" * 65455)]))
+        # --- 3: option areas of every size up to the one that fills the header exactly
+        for nopt in range(0, 11):
+            for pl in ("", "61", "6162"):
+                cases.append(S([E, I(17, hl=5 + nopt, raw_options=("01" * (4 * nopt - 1) + "00") if nopt else ""), U, {"k": "bytes", "data": pl}]))
+        for n in range(0, 41):
+            cases.append(S([E, I(6), T([{"t": 1}] * n), B(b"a")]))
+            # ... ending in End of Option List (the parser stops there and does not list it: parse/re-pack compared with the model only)
+            if n: cases.append(MP([E, I(6), T([{"t": 1}] * (n - 1) + [{"t": 0}]), B(b"ab")]))
+        ts = {"t": 8, "v": [0xffffffff, 0]}
+        for opts in ([ts] * 4, [{"t": 5, "v": [[1, 2], [3, 4], [5, 6], [7, 8]]}, {"t": 2, "v": 1460}, {"t": 1}, {"t": 1}], [{"t": 77, "v": "ab" * 38}], [{"t": 77, "v": "ab" * 37}],
+                     [{"t": 5, "v": [[1, 2], [3, 4], [5, 6], [7, 8]]}, {"t": 3, "v": 14}, {"t": 4}], [{"t": 2, "v": 0}, {"t": 3, "v": 0}, {"t": 4}, ts, {"t": 254, "v": "00" * 17}]):
+            for fr in ([E, I(6)], [E6, dict(I6, nh=6)]):
+                cases.append(S(fr + [T(opts), B(b"abc")]))
+        # --- 3: zero / falsy values at every position; payload absent rather than empty
+        Z4 = dict(I(17), tos=0, id=0, flags=0, ttl=0, srcip=0, dstip=0)
+        ZE = {"k": "ethernet", "dst": "00" * 6, "src": "00" * 6, "type": 0x0800}
+        Z6 = dict(I6, tc=0, flow=0, hop_limit=0, srcip="00" * 16, dstip="00" * 16)
+        ZT = dict(T(), srcport=0, dstport=0, seq=0, ack=0, flags=0, win=0)
+        for term in ({"k": "none"}, {"k": "bytes", "data": ""}, {"k": "bytes", "data": "00"}):
+            zs = [S([ZE, Z4, dict(U, srcport=0, dstport=0), term]), S([ZE, dict(Z4, protocol=6), ZT, term]),
+                      S([ZE, dict(Z4, protocol=1), {"k": "icmp", "type": 0, "code": 0, "csum": 0}, {"k": "echo", "id": 0, "seq": 0}, term]),
+                      S([ZE, dict(Z4, protocol=1), {"k": "icmp", "type": 13, "code": 0, "csum": 0}, term]), S([ZE, dict(Z4, protocol=0), term]),
+                      S([dict(ZE, type=0x8100), {"k": "vlan", "pcp": 0, "cfi": 0, "id": 0, "eth_type": 0x0800}, Z4, dict(U, srcport=0, dstport=0), term]),
+                      S([dict(ZE, type=0x86dd), dict(Z6, nh=17), dict(U, srcport=0, dstport=0), term]), S([dict(ZE, type=0x86dd), dict(Z6, nh=6), ZT, term]),
+                      S([dict(ZE, type=0x86dd), Z6, {"k": "icmpv6", "type": 128, "code": 0}, {"k": "echo6", "id": 0, "seq": 0}, term]),
+                      S([dict(ZE, type=0x8847), {"k": "mpls", "label": 0, "tc": 0, "s": 1, "ttl": 0}, term]),
+                      S([ZE, Z4, dict(U, srcport=0, dstport=4789), {"k": "vxlan", "vni": 0}, dict(ZE, type=0xffff), term]),
+                      S([ZE, Z4, dict(U, srcport=0, dstport=4789), {"k": "vxlan", "vni": None}, dict(ZE, type=0xffff), term])]
+            # ethernet, ipv4 and tcp objects start with next = b'' (not None): "no payload" and "empty payload" are the same object state there
+            cases += [c for c in zs if not (term["k"] == "none" and c["layers"][-2]["k"] in ("ipv4", "tcp", "ethernet"))]
+        for key, seq, cs in ((0, 0, True), (0, None, False), (None, 0, True), (0, 0, False)):
+            cases.append(S([E, I(47), {"k": "gre", "type": 0x0800, "key": key, "seq": seq, "csum": cs, "ssr": False}, I(253, id=0), B(b"ab")]))
+        cases.append(S([E6, I6, {"k": "icmpv6", "type": 134, "code": 0}, {"k": "nd_ra", "hop_limit": 0, "managed": False, "other": False, "lifetime": 0, "reachable": 0, "retrans": 0,
+                                                                      "opts": [{"t": 5, "mtu": 0}, {"t": 3, "plen": 0, "onlink": False, "auto": False, "valid": 0, "pref": 0, "prefix": "00" * 16}]}, {"k": "none"}]))
+        cases.append(S([E6, I6, {"k": "icmpv6", "type": 2, "code": 0}, {"k": "toobig6", "mtu": 0}, B(b"")]))
+        # --- 3: the Ethernet type / length boundary
+        for t in (1500, 1535):
+            cases.append(S([dict(E, type=t), {"k": "llc", "dsap": 0x42, "ssap": 0x42, "control": 3, "length": 3, "oui": None, "eth_type": None}, B(b"abc")]))
+        for t in (1536, 1537, 0xffff):
+            cases.append(S([dict(E, type=t), B(b"abc")]))
+        # --- 3: DHCP option values at and around the 255-byte part size
+        dh = lambda opts: {"k": "dhcp", "op": 1, "htype": 1, "hlen": 6, "hops": 0, "xid": 0, "secs": 0, "flags": 0, "ciaddr": 0, "yiaddr": 0, "siaddr": 0, "giaddr": 0,
+                           "chaddr": "001122334455" + "00" * 10, "sname": "", "file": "", "options": opts}
+        for n in (0, 1, 2, 253, 254, 255, 256, 257, 509, 510, 511, 765, 766):
+            cases.append(S([E, I(17), dict(U, srcport=68, dstport=67), dh([{"c": 53, "v": 1}, {"c": 43, "v": ("%02x" % (n & 255)) * n}, {"c": 12, "v": "68"}]), {"k": "none"}]))
+        # --- 6: every value of every selector byte, below headers that compute the checksums themselves (no oracle: model comparison).
+        #     The ND / error / DHCP / RIP / VXLAN bodies are raw bytes here, so every prefix and every damaged selector still arrives
+        #     behind a valid checksum (HARDENING 6, 7)
+        na = bytes([0xa0, 0, 0, 0]) + bytes.fromhex("fe80" + "00" * 13 + "05") + bytes([2, 1, 0, 0x11, 0x22, 0x33, 0x44, 0x55]) + bytes([14, 1, 1, 2, 3, 4, 5, 6])
+        ra = bytes([64, 0x80, 7, 8, 0, 0, 0, 1, 0, 0, 0, 2]) + bytes([1, 1, 0, 0x11, 0x22, 0x33, 0x44, 0x55]) + bytes([5, 1, 0, 0, 0, 0, 5, 0xdc]) + \
+             bytes([3, 4, 64, 0xc0, 0, 1, 0x51, 0x80, 0, 0, 0x38, 0x40, 0, 0, 0, 0]) + bytes.fromhex("20010db8" + "00" * 12)
+        q6 = bytes.fromhex("6000000000083b40") + bytes(range(32)) + b"12345678"
+        bodies6 = [b"", b"\0\0\0\0", na, ra, b"\0\0\5\0" + q6]
+        for t in range(256):
+            for body in bodies6:
+                cases.append(MP([E6, I6, {"k": "icmpv6", "type": t, "code": 0}, B(body)]))
+        for body, t in ((na, 136), (ra, 134), (bytes(4) + na[4:], 135), (bytes(4) + ra[12:], 133), (b"\0\0\5\0" + q6, 2), (bytes(4) + q6, 1), (bytes(4) + q6, 3)):
+            for k in range(len(body)):
+                cases.append(MP([E6, I6, {"k": "icmpv6", "type": t, "code": 0}, B(body[:k])]))
+        for pos in (20, 21, 28, 29):              # option type and option length octets of the neighbor advertisement
+            for v in range(256):
+                cases.append(MP([E6, I6, {"k": "icmpv6", "type": 136, "code": 0}, B(na[:pos] + bytes([v]) + na[pos + 1:])]))
+        for pos in (12, 13, 20, 21, 28, 29, 30, 31):
+            for v in range(0, 256, 1 if pos in (12, 13, 29) else 5):
+                cases.append(MP([E6, I6, {"k": "icmpv6", "type": 134, "code": 0}, B(ra[:pos] + bytes([v]) + ra[pos + 1:])]))
+        inner = struct.pack("!BBHHHBBHII", 0x45, 0, 28, 1, 0, 64, 17, 0, 0x0a000001, 0x0a000002) + struct.pack("!HHHH", 1, 2, 8, 0)
+        for t in range(256):
+            for body in (b"", b"\0\1\0\2", bytes(4) + inner, bytes(4) + inner + b"abcdefgh"):
+                cases.append(MP([E, I(1), {"k": "icmp", "type": t, "code": 0, "csum": 0}, B(body)]))
+            cases.append(MP([E, I(t), B(inner)]))
+            cases.append(MP([E, I(6), T([{"t": t, "v": "0102"}] if t not in (0, 1, 2, 3, 4, 5, 8) else [{"t": 1}, {"t": t, **({"v": 7} if t in (2, 3) else {"v": [[1, 2]]} if t == 5 else {"v": [1, 2]} if t == 8 else {})}]),
+                             B(b"ab")]))
+            if t not in (1, 2, 3, 5):          # (the typed options are built from their own fields elsewhere)
+                cases.append(MP([E6, I6, {"k": "icmpv6", "type": 135, "code": 0}, {"k": "nd_ns", "target": "fe80" + "00" * 14, "opts": [{"t": t, "raw": "010203040506"}, {"t": t, "raw": "00" * 14}]}, {"k": "none"}]))
+            cases.append(MP([E, I(17), dict(U, srcport=68, dstport=67), dh([{"c": t, "raw": "01"}, {"c": 15 if t == 12 else 12, "v": "6869"}]), {"k": "none"}]))
+        # IGMP: the checksum is verified by the parser, so it is computed here
+        def igmp_msg(b): return b[:2] + struct.pack("!H", rfc1071(b[:2] + b"\0\0" + b[4:])) + b[4:]
+        rep = bytes([0x22, 0, 0, 0, 0, 0, 0, 2]) + bytes([1, 0, 0, 1]) + bytes([224, 0, 0, 22, 10, 0, 0, 1]) + bytes([4, 1, 0, 0]) + bytes([224, 0, 0, 9]) + b"abcd"
+        for t in range(256):
+            cases.append(MP([E, I(2), B(igmp_msg(bytes([t, 10, 0, 0, 224, 0, 0, 22])))]))
+            cases.append(MP([E, I(2), B(igmp_msg(bytes([t]) + rep[1:]))]))
+        for k in range(len(rep) + 1): cases.append(MP([E, I(2), B(igmp_msg(rep[:k]) if k >= 4 else rep[:k])]))
+        for pos in (7, 8, 9, 11, 20, 21, 23):
+            for v in (0, 1, 2, 3, 4, 5, 6, 7, 8, 16, 255): cases.append(MP([E, I(2), B(igmp_msg(rep[:pos] + bytes([v]) + rep[pos + 1:]))]))
+        # every prefix of a DHCP / RIP / VXLAN message behind a UDP header with the right length and checksum
+        try:
+            dmsg = self.build(self.fixup([dh([{"c": 53, "v": 1}, {"c": 55, "v": [1, 3, 6]}, {"c": 12, "v": "686f7374"}, {"c": 43, "v": "07" * 300}])])).pack()
+        except Exception:
+            dmsg = b""
+        for k in list(range(0, 48)) + list(range(230, len(dmsg) + 1)):
+            cases.append(MP([E, I(17), dict(U, srcport=68, dstport=67), B(dmsg[:k])]))
+        rmsg = bytes([2, 2, 0, 0]) + struct.pack("!HHIIII", 2, 0, 0x0a000000, 0xff000000, 0, 3) + struct.pack("!HHIIII", 2, 7, 0x0a010000, 0xffff0000, 1, 16)
+        for k in range(len(rmsg) + 1): cases.append(MP([E, I(17), dict(U, srcport=520, dstport=520), B(rmsg[:k])]))
+        vmsg = bytes([8, 0, 0, 0, 0xab, 0xcd, 0xef, 0]) + bytes.fromhex("66778899aabb0011223344559999") + b"ab"
+        for k in range(len(vmsg) + 1): cases.append(MP([E, I(17), dict(U, dstport=4789), B(vmsg[:k])]))
+        for v in range(256): cases.append(MP([E, I(17), dict(U, dstport=4789), B(bytes([v]) + vmsg[1:])]))
+        # --- 1, 2, 4: call histories on the same objects
+        V = {"k": "vlan", "pcp": 5, "cfi": 0, "id": 0xabc, "eth_type": 0x0800}
+        nd = {"k": "nd_na", "target": "fe80" + "00" * 13 + "05", "opts": [{"t": 2, "addr": "001122334455"}, {"t": 14, "raw": "010203040506"}], "router": True, "solicited": False, "override": True}
+        frames = self.l4_frames(B(b"abc")) + [
+            [dict(E, type=0x8100), V, I(17), U, B(b"abcd")], [E, I(6, hl=7, raw_options="0101010144040500"), T([{"t": 2, "v": 1460}, {"t": 1}, {"t": 3, "v": 7}]), B(b"ab")],
+            [E, I(1), {"k": "icmp", "type": 3, "code": 1, "csum": 0}, {"k": "unreach", "unused": 0, "next_mtu": 1400}, I(17), U, B(b"12345678")],
+            [E6, I6, {"k": "icmpv6", "type": 136, "code": 0}, nd, {"k": "none"}],
+            [E6, I6, {"k": "icmpv6", "type": 134, "code": 0}, {"k": "nd_ra", "hop_limit": 64, "managed": True, "other": False, "lifetime": 1800, "reachable": 0, "retrans": 1000,
+                                                               "opts": [{"t": 1, "addr": "001122334455"}, {"t": 5, "mtu": 1500}]}, {"k": "none"}],
+            [E, I(17), dict(U, dstport=4789), {"k": "vxlan", "vni": 0xabcdef}, dict(E, type=0x9999), B(b"ab")],
+            [dict(E, type=0x8847), {"k": "mpls", "label": 5, "tc": 1, "s": 1, "ttl": 9}, B(b"abcd")],
+            [dict(E, type=0x88cc), {"k": "lldp", "tlvs": [{"t": 1, "subtype": 4, "id": "000102030405"}, {"t": 2, "subtype": 2, "id": "31"}, {"t": 3, "ttl": 120}, {"t": 5, "payload": "7377"}, {"t": 0}]}, {"k": "none"}],
+            [E, I(17), dict(U, srcport=68, dstport=67), dh([{"c": 53, "v": 1}, {"c": 12, "v": "686f7374"}]), {"k": "none"}],
+            [E, I(2), {"k": "igmp", "vt": 0x22, "groups": [{"type": 1, "addr": 0xe0000116, "srcs": [0x0a000001], "aux": ""}], "extra": ""}, {"k": "none"}]]
+        alt = lambda how, old: (old ^ 1 if isinstance(old, int) else 1) if how[0] == "int" else "0e" * 6 if how[0] == "mac" else 0x7f000001 if how[0] == "ip4" else "20" + "01" * 15
+        for fr in frames:
+            fr = self.fixup(fr)
+            Q = lambda **kw: dict({"kind": "seq", "top": "ethernet", "layers": fr, "delta": []}, **kw)
+            cases.append(Q())
+            cases.append(Q(layers=[dict(L, _noid=True) if L["k"] == "ipv4" else L for L in fr]))
+            for bf in (False, True):
+                cases.append(Q(other=self.twin(__import__("random").Random(3), fr), bfirst=bf))
+            for i, L in enumerate(fr):
+                for f, how in self.SETTABLE.get(L["k"], {}).items():
+                    if L["k"] == "udp" and (L["srcport"] in UDP_SPECIAL or L["dstport"] in UDP_SPECIAL): continue
+                    if how[0] == "tcpopts":
+                        for v in ([], [{"t": 2, "v": 536}], [{"t": 1}] * 40, [{"t": 8, "v": [1, 2]}, {"t": 1}, {"t": 1}]): cases.append(Q(delta=[{"i": i, "f": f, "v": v}]))
+                    elif how[0] == "payload":
+                        d = bytes.fromhex(L["data"])
+                        for v in (d[:-1] + bytes([d[-1] ^ 0x80]), d + b"x", d[:-1], b"", d * 8): cases.append(Q(delta=[{"i": i, "f": f, "v": v.hex()}]))
+                    else:
+                        cases.append(Q(delta=[{"i": i, "f": f, "v": alt(how, L[f])}]))
+            both = [{"i": i, "f": f, "v": alt(how, L[f])} for i, L in enumerate(fr) for f, how in self.SETTABLE.get(L["k"], {}).items()
+                    if how[0] in ("int", "ip4", "ip6", "mac") and not (L["k"] == "udp" and (L["srcport"] in UDP_SPECIAL or L["dstport"] in UDP_SPECIAL))]
+            cases.append(Q(delta=both))
+        return cases
 
     def g_cksum(self, rng):
         c = rng.randrange(10)
@@ -1614,6 +1909,11 @@ class C14(Check):
         # --- one of every un-modelled module (fixed seed)
         for _ in range(120):
             cases.append(self.g_other(rng))
+        cases += self.corpus_hardening()
+        # --- checksum(): buffers at the 64 KiB / 128 KiB marks (every word 0xffff: the largest sums the model's bound allows)
+        for n in (65534, 65535, 65536, 65537, 131071, 131072):
+            for fill in (b"\xff", b"\x80", b"\x01"):
+                cases.append({"kind": "cksum", "data": (fill * n).hex(), "start": 0, "skip": None})
         return cases
 
     def generate(self, rng, tier):
@@ -1621,8 +1921,10 @@ class C14(Check):
         for i in range(n):
             r = rng.random()
             if r < 0.10: yield self.g_cksum(rng)
-            elif r < 0.55: yield self.g_modelled(rng)
-            elif r < 0.70: yield self.g_mut(rng)
+            elif r < 0.50: yield self.g_modelled(rng)
+            elif r < 0.63: yield self.g_mut(rng)
+            elif r < 0.75: yield self.g_seq(rng)
+            elif r < 0.753: yield self.g_big(rng)
             else: yield self.g_other(rng)
 
     def search_cases(self, rng, tier):
@@ -1630,7 +1932,7 @@ class C14(Check):
         for c in self.generate(rng, "thorough"): yield c
 
     def extra_evidence(self):
-        return {"malformed_stream_cases_outside_model": self.declined, "code_variant": self.variant, "technique": self.technique, "level_text": self.level_text, "level_note": self.level_note, "design_ref": self.design_ref}
+        return {"malformed_stream_cases_outside_model": self.declined, "code_variant": self.variant, "code_variant_crosscheck": getattr(self, "variant_crosscheck", None), "technique": self.technique, "level_text": self.level_text, "level_note": self.level_note, "design_ref": self.design_ref}
 
 
 C14.theorems = ["Pox.C14." + t for t in (
